@@ -227,8 +227,8 @@ class Contract:
         newc += ['ensures[inv:view|C15] r.view.inv()']
         self.sec['fn ' + initf] = newc + self.sec.get('fn ' + initf, [])
         e3 = opts.get('E3', '')
-        upd = ['ensures[E1|C01,C17] final(self).abs().0 == V::step(old(self).abs().0, val)',
-               'ensures[E2|C01,C08,C17] V::out(final(self).abs().0).is_none() ==> final(self).abs().1 == old(self).abs().1',
+        upd = ['ensures[E1|C01,C17] final(self).abs().0 == V::step(old(self).abs().0, @RAW@)',
+               'ensures[E2|C01,C08,C17%s] V::out(final(self).abs().0).is_none() ==> final(self).abs().1 == old(self).abs().1' % ((',' + e3) if e3 else ''),
                'ensures[E3|%s] V::out(final(self).abs().0).is_some() ==> final(self).abs().1 =~~= %s_own_step%s(old(self).abs().1, V::out(final(self).abs().0).unwrap())' % (e3, snake, tf)]
         upd += ['ensures[inv:%s|%s] %s' % (l, t, sub_self(e, 'final(self)')) for l, t, e in conj]
         self.sec['fn update'] = upd + self.sec.get('fn update', [])
@@ -321,6 +321,21 @@ def inject_fn(em, module, vc, header, body, is_trait_impl, struct_name):
     if rm and not re.match(r'\(\w+\s*:', rm.group(1).strip()):
         hdr = hdr[:rm.start()] + '-> (r: %s)' % rm.group(1).strip()
     start_line = em.lineno() + 1
+    raw = y = None
+    pm = re.search(r'fn update\(\s*&mut self,\s*(\w+)\s*:', hdr)
+    if pm:
+        raw = pm.group(1)
+        ym = re.search(r'let Some\((?:mut )?(\w+)\) = self\s*\.view\s*\.last\(\)', body)
+        y = ym.group(1) if ym else raw
+    em_add = em.add
+    def add_sub(text, info=None):
+        if raw:
+            text = text.replace('@RAW@', raw).replace('@Y@', y)
+            if info and 'text' in info: info = dict(info, text=info['text'].replace('@RAW@', raw).replace('@Y@', y))
+        elif '@RAW@' in text or '@Y@' in text:
+            raise ExtractError('placeholder outside update in %s::%s' % (module, name))
+        em_add(text, info)
+    em.add = add_sub
     em.add('    ' + hdr)
     ctext = vc.get('fn ' + name)
     if ctext:
@@ -386,6 +401,7 @@ def inject_fn(em, module, vc, header, body, is_trait_impl, struct_name):
     if rest.strip('\n') != '':
         em.add(rest.strip('\n'))
     em.add('    }')
+    em.add = em_add
     em.fnspans.append((start_line, em.lineno(), module, name))
     return name
 
